@@ -2,7 +2,7 @@
 C08: the simulation relation between the model over the ideal backend and the specification, one
 step and whole runs.
 -/
-import Gossamer.Lib.C08Writes3
+import Gossamer.Lib.C08Limit6
 set_option linter.unusedSectionVars false
 set_option linter.unusedSimpArgs false
 namespace Gossamer.C08
@@ -19,24 +19,44 @@ def OpOK (CK : Bytes → Bool) : Op → Prop
   | .next _ => True
   | .ents => True
   | .clr p => overlapsRegion p = false
+  | .clrl p _ => overlapsRegion p = false
   | .cput c _ _ => CK c = true
   | .cdel c _ => CK c = true
   | .cget c _ => CK c = true
   | .cclr c _ => CK c = true
+  | .cclrl c _ _ => CK c = true
   | .cnext c _ => CK c = true
   | .ckeys c _ => CK c = true
   | .kill c => CK c = true ∧ Logical.isChildKey c = false
+  | .killl c _ => CK c = true ∧ Logical.isChildKey c = false
   | .start => True
   | .commit => True
   | .rollback => True
   | _ => False
 
 /-- `OpOK` and, for a child write, the child trie was not deleted earlier in the same transaction
-    (finding `child-recreated-after-kill`; the driver's test: the key is in `deletes` of the top diff) -/
+    (finding `child-recreated-after-kill`; the driver's test: the key is in `deletes` of the top diff);
+    for `clrl` inside a transaction every key written in the transaction has the prefix (finding
+    `alldeleted-counts-nonmatching`), outside a transaction not (limit 0 and no key with the prefix)
+    (finding `limit0-reports-remaining`); `cclrl` likewise, and outside a transaction the child must
+    exist (finding `nochild-reports-remaining`); `killl` inside a transaction not on a child that
+    exists only as an emptied change set (same finding).  `cclrl` / `killl` on a child deleted
+    earlier in the same transaction are left out of the proof (not a finding). -/
 def StepOK (CK : Bytes → Bool) (t : TS Logical) (op : Op) : Prop :=
   OpOK CK op ∧
     (match op, t.txs with
       | .cput c _ _, d :: _ => c ∉ d.c.deletes
+      | .clrl p _, d :: _ => ∀ k ∈ KMap.keys d.c.upserts, p.isPrefixOf k = true
+      | .clrl p n, [] => n ≠ 0 ∨ OMap.keysWithPrefix p t.base.main ≠ []
+      | .cclrl c p _, d :: _ =>
+        c ∉ d.c.deletes ∧ ∀ k ∈ KMap.keys (d.kid c).upserts, p.isPrefixOf k = true
+      | .cclrl c p n, [] =>
+        (KMap.find c t.base.kids).isSome = true ∧
+          (n ≠ 0 ∨ OMap.keysWithPrefix p (kidOf t.base c) ≠ [])
+      | .killl c _, d :: _ =>
+        c ∉ d.c.deletes ∧
+          ((KMap.find c t.base.kids).isNone = true → (KMap.find c d.kids).isSome = true →
+            (d.kid c).upserts ≠ [])
       | _, _ => True)
 
 /-- the specification state is the logical content of every level of the model state -/
@@ -110,6 +130,47 @@ theorem baseInv_clr (hb : BaseInv CK b) (p : Bytes) :
     simp only [OMap.get_clearPrefix]
     simp [hb.mainCK k' hk']
 
+theorem specLoop_get (back : Entries) (ks : List Bytes) :
+    ∀ (limit : Option Nat) (t : Entries) (n : Nat), OMap.Sorted t →
+      OMap.Sorted (specLoop back ks limit t n).1 ∧
+      ∀ k, OMap.get k (specLoop back ks limit t n).1 = none ∨
+        OMap.get k (specLoop back ks limit t n).1 = OMap.get k t := by
+  induction ks with
+  | nil => intro limit t n hs; exact ⟨hs, fun k => Or.inr rfl⟩
+  | cons x r ih =>
+    intro limit t n hs
+    simp only [specLoop]
+    split
+    · exact ⟨hs, fun k => Or.inr rfl⟩
+    · obtain ⟨h1, h2⟩ := ih (if (OMap.get x back).isSome = true then Option.map (· - 1) limit else limit)
+        (OMap.erase x t) (n + 1) (OMap.sorted_erase _ hs)
+      refine ⟨h1, ?_⟩
+      intro k
+      rcases h2 k with h | h
+      · exact Or.inl h
+      · rw [h, OMap.get_erase]
+        by_cases hk : k = x
+        · simp [hk]
+        · simp [hk]
+
+theorem baseInv_specLimit (hb : BaseInv CK b) (back : Entries) (sel : Bytes → Bool)
+    (limit : Option Nat) :
+    BaseInv CK { b with main := (specLimit b.main back sel limit).1 } := by
+  unfold specLimit
+  simp only []
+  obtain ⟨h1, h2⟩ := specLoop_get back
+    (unionKeys ((b.main.map (·.1)).filter sel) ((back.map (·.1)).filter sel)) limit b.main 0 hb.wf.main
+  refine ⟨⟨h1, ?_, hb.wf.kids, hb.wf.kid⟩, ?_, hb.kidsCK⟩
+  · intro k hk
+    rcases h2 k with h | h
+    · exact h
+    · rw [h]; exact hb.wf.noChild k hk
+  · intro k hk
+    rcases h2 k with h | h
+    · exact h
+    · show OMap.get k _ = none
+      rw [h]; exact hb.mainCK k hk
+
 theorem setKid_clear_missing (hw : b.WF) (ck p : Bytes) (h : KMap.find ck b.kids = none) :
     Logical.setKid b ck (OMap.clearPrefix p (kidOf b ck)) = b := by
   have e : OMap.clearPrefix p (kidOf b ck) = [] := by rw [kidOf_none h]; rfl
@@ -170,6 +231,45 @@ theorem cclr0 (b : Logical) (hw : b.WF) (ck p : Bytes) :
     simp only [kidOf_some hfb]
     exact ⟨by first | trivial | rfl, by first | trivial | rfl⟩
 
+theorem sorted_specLimit {t : Entries} (ht : OMap.Sorted t) (back : Entries) (sel : Bytes → Bool)
+    (limit : Option Nat) : OMap.Sorted (specLimit t back sel limit).1 := by
+  unfold specLimit
+  exact (specLoop_get back _ limit t 0 ht).1
+
+theorem killl_test {b : Logical} {d : Diff} (hb : BaseInv CK b) (hd : DiffInv CK d) (c : Bytes)
+    (hnd : c ∉ d.c.deletes)
+    (hreg : (KMap.find c b.kids).isNone = true → (KMap.find c d.kids).isSome = true →
+      (d.kid c).upserts ≠ []) :
+    ((KMap.find c (effL b d).kids).isNone && (KMap.find c b.kids).isNone) =
+      ((KMap.find c b.kids).isNone && (KMap.find c d.kids).isNone) := by
+  have hw := effL_wf (d := d) hb.wf
+  cases hfb : KMap.find c b.kids with
+  | some es => simp
+  | none =>
+    simp only [Option.isNone_none, Bool.and_true, Bool.true_and]
+    cases hfd : KMap.find c d.kids with
+    | none =>
+      have : kidOf (effL b d) c = [] := by rw [kid_same hb hd hnd hfd, kidOf_none hfb]
+      rw [(kidOf_nil_iff hw c).mp this]
+      rfl
+    | some ch =>
+      have hne := hreg (by rw [hfb]; rfl) (by rw [hfd]; rfl)
+      have hkid : d.kid c = ch := by unfold Diff.kid; rw [hfd]; rfl
+      rw [hkid] at hne
+      cases hu : ch.upserts with
+      | nil => exact absurd hu hne
+      | cons e r =>
+        have hf : KMap.find e.1 ch.upserts = some e.2 := by rw [hu]; simp [KMap.find]
+        have hdl : e.1 ∉ ch.deletes := fun hm => by
+          rw [hd.kidDisj c ch hfd e.1 hm] at hf; cases hf
+        have hg : OMap.get e.1 (kidOf (effL b d) c) ≠ none := by
+          rw [eff_kid hb hd]
+          simp [hnd, hfd, hdl, hf]
+        have hnn : kidOf (effL b d) c ≠ [] := fun h => by rw [h] at hg; exact hg rfl
+        cases hfl : KMap.find c (effL b d).kids with
+        | none => exact absurd ((kidOf_nil_iff hw c).mpr hfl) hnn
+        | some x => rfl
+
 /-- one operation of the fragment keeps the relation and gives the same observable -/
 theorem sim_step {t : TS Logical} {s : SS} (h : Sim CK t s) (op : Op) (hstep : StepOK CK t op) :
     Sim CK (stepTS (idealBackend Hc Hm) D Diff.sortedOrder t op).1 (specStep Hc Hm s op).1 ∧
@@ -207,6 +307,13 @@ theorem sim_step {t : TS Logical} {s : SS} (h : Sim CK t s) (op : Op) (hstep : S
       simp only [stepTS, clearPrefixTS, specStep, idealBackend, SS.setTop, SS.top,
         List.head?_nil, Option.getD_none]
       exact ⟨⟨rfl, rfl, baseInv_clr hbase p, hnil⟩, by first | trivial | rfl⟩
+    · -- clrl
+      rename_i p n
+      have e := clearPrefixLimit_spec p n hbase.wf.main hkill
+      simp only [stepTS, clearPrefixLimitTS, specStep, idealBackend, SS.setTop, SS.top,
+        List.head?_nil, Option.getD_none]
+      rw [e]
+      exact ⟨⟨rfl, rfl, baseInv_specLimit hbase _ _ _, hnil⟩, rfl⟩
     · -- next
       rename_i k
       simp only [stepTS, readOp, nextKeyTS, specStep, specRead, idealBackend]
@@ -239,6 +346,12 @@ theorem sim_step {t : TS Logical} {s : SS} (h : Sim CK t s) (op : Op) (hstep : S
       rw [e1, e2]
       exact ⟨⟨rfl, rfl, baseInv_setKid hbase c _
         (OMap.sorted_clearPrefix _ (kidOf_sorted hbase.wf c)) hop, hnil⟩, rfl⟩
+    · -- cclrl
+      rename_i c p n
+      simp only [stepTS, specStep, SS.setTop, SS.top, List.head?_nil, Option.getD_none]
+      rw [cclrl0 Hc Hm hbase.wf c p n hkill.1 hkill.2]
+      exact ⟨⟨rfl, rfl, baseInv_setKid hbase c _
+        (sorted_specLimit (kidOf_sorted hbase.wf c) _ _ _) hop, hnil⟩, rfl⟩
     · -- cnext
       rename_i c k
       simp only [stepTS, readOp, specStep, specRead, cnext0]
@@ -252,6 +365,17 @@ theorem sim_step {t : TS Logical} {s : SS} (h : Sim CK t s) (op : Op) (hstep : S
       simp only [stepTS, deleteChildTS, specStep, idealBackend, SS.setTop, SS.top,
         List.head?_nil, Option.getD_none]
       exact ⟨⟨rfl, rfl, baseInv_delKid hbase c, hnil⟩, by first | trivial | rfl⟩
+    · -- killl
+      rename_i c lim
+      simp only [stepTS, specStep, SS.setTop, SS.top, List.head?_nil, Option.getD_none]
+      rw [killl0 Hc Hm hbase.wf c lim]
+      simp only [Bool.and_self]
+      by_cases hf : (KMap.find c sb.kids).isNone = true
+      · simp only [hf, if_true]
+        exact ⟨⟨rfl, rfl, hbase, hnil⟩, by first | trivial | rfl⟩
+      · simp only [hf, Bool.false_eq_true, if_false]
+        exact ⟨⟨rfl, rfl, baseInv_setKid hbase c _
+          (sorted_specLimit (kidOf_sorted hbase.wf c) _ _ _) hop.1, hnil⟩, by first | trivial | rfl⟩
     · -- start
       simp only [stepTS, startTS, specStep, List.head?_nil, Option.getD_none, SS.top]
       refine ⟨⟨rfl, rfl, hbase, ?_⟩, by first | trivial | rfl⟩
@@ -304,6 +428,18 @@ theorem sim_step {t : TS Logical} {s : SS} (h : Sim CK t s) (op : Op) (hstep : S
       refine ⟨⟨rfl, ?_, hbase, hcons _ e2⟩, by first | trivial | rfl⟩
       simp only [List.map_cons]
       rw [e1]
+    · -- clrl
+      rename_i p n
+      have hK2 : ∀ k ∈ KMap.keys d.c.upserts,
+          k ∉ keysWithPrefixOn ((idealBackend Hc Hm).get sb) ((idealBackend Hc Hm).keysAfter sb) p →
+            p.isPrefixOf k = true := fun k hk _ => hkill k hk
+      obtain ⟨e1, e2, e3, e4⟩ := eff_clearPrefixLimit Hc Hm hbase hd p n hop hK2
+      simp only [stepTS, clearPrefixLimitTS, specStep, SS.setTop, SS.top, List.head?_cons,
+        Option.getD_some]
+      refine ⟨⟨rfl, ?_, hbase, hcons _ e2⟩, ?_⟩
+      · simp only [List.map_cons]
+        rw [e1]
+      · rw [e3, e4]
     · -- next
       rename_i k
       simp only [stepTS, readOp, specStep, specRead]
@@ -344,6 +480,15 @@ theorem sim_step {t : TS Logical} {s : SS} (h : Sim CK t s) (op : Op) (hstep : S
       refine ⟨⟨rfl, ?_, hbase, hcons _ e2⟩, rfl⟩
       simp only [List.map_cons]
       rw [e1]
+    · -- cclrl
+      rename_i c p n
+      obtain ⟨e1, e2, e3, e4⟩ := eff_clearChildLimit hbase hd c p n hop hkill.1 hkill.2
+      simp only [stepTS, specStep, SS.setTop, SS.top, List.head?_cons, Option.getD_some]
+      rw [clearPrefixInChildLimitTS_tx Hc Hm d r c p n]
+      refine ⟨⟨rfl, ?_, hbase, hcons _ e2⟩, ?_⟩
+      · simp only [List.map_cons]
+        rw [e1]
+      · rw [e3, e4]
     · -- cnext
       rename_i c k
       simp only [stepTS, readOp, specStep, specRead]
@@ -363,6 +508,21 @@ theorem sim_step {t : TS Logical} {s : SS} (h : Sim CK t s) (op : Op) (hstep : S
       refine ⟨⟨rfl, ?_, hbase, hcons _ (inv_kill hd c hop.1 hop.2)⟩, by first | trivial | rfl⟩
       simp only [List.map_cons]
       rw [eff_kill hbase hd c hop.1 hop.2]
+    · -- killl
+      rename_i c lim
+      obtain ⟨e1, e2, e3, e4⟩ := eff_killLimit hbase hd c lim hop.1 hop.2 hkill.1
+      have ht := killl_test hbase hd c hkill.1 hkill.2
+      simp only [stepTS, specStep, SS.setTop, SS.top, List.head?_cons, Option.getD_some]
+      rw [deleteChildLimitTS_tx Hc Hm d r c lim]
+      simp only [ht]
+      by_cases hc : ((KMap.find c sb.kids).isNone && (KMap.find c d.kids).isNone) = true
+      · simp only [hc, if_true]
+        exact ⟨⟨rfl, rfl, hbase, hdiffs⟩, by first | trivial | rfl⟩
+      · simp only [hc, Bool.false_eq_true, if_false]
+        refine ⟨⟨rfl, ?_, hbase, hcons _ e2⟩, ?_⟩
+        · simp only [List.map_cons]
+          rw [e1]
+        · rw [e3, e4]
     · -- start
       simp only [stepTS, startTS, specStep, List.head?_cons, Option.getD_some, SS.top]
       refine ⟨⟨rfl, rfl, hbase, ?_⟩, by first | trivial | rfl⟩
